@@ -30,12 +30,15 @@ def sup_case(draw, nmax=10, kinds=("sup",), nq=(0, 0), nu=(0, 0), modes=("pre", 
     if draw(st.integers(0, 2)) == 0:
         # the model object has a HISTORY before the fit that is checked: earlier fits on other data, predictions, helper calls,
         # a save/load round trip into a default-constructed object; and helper calls between the fit and the prediction
-        case["prelude"] = draw(st.lists(st.sampled_from(["fit_other", "predict_other", "get_distances", "via_load", "fit_other"]), min_size=1, max_size=4))
+        case["prelude"] = draw(st.lists(st.sampled_from(["fit_other", "predict_other", "get_distances", "via_load", "fit_other", "stale_matrix"]), min_size=1, max_size=4))
         case["mid"] = draw(st.lists(st.sampled_from(["get_distances", "predict_other"]), min_size=0, max_size=2))
     if mode == "pre":
         W, wm = draw(gen.weight_matrix(m, mode=wmode))
         case["W"] = W
         case["wmode"] = wm
+        if draw(st.integers(0, 3)) == 0:
+            # with pre-computed distances the feature rows are placeholders: all of them identical here
+            case["zero_feats"] = True
         if draw(st.integers(0, 2)) > 0:
             # node a uses row rows[a] of the library's matrix: train / query rows in arbitrary order inside a bigger matrix;
             # unlabeled samples must sit at rows nt..nt+nu-1 (the only layout the semi-supervised API can express)
@@ -65,6 +68,9 @@ def sup_case(draw, nmax=10, kinds=("sup",), nq=(0, 0), nu=(0, 0), modes=("pre", 
         case["X"] = X
         case["metric"] = name
         case["pkind"] = kind
+        if draw(st.integers(0, 5)) == 0:
+            # default-constructed object, the metric installed afterwards through the public distance_fn setter
+            case["ctor"] = "fn_setter"
         if draw(st.integers(0, 3)) == 0:
             # identifiers given by the caller although distances come from the features (they must not influence anything);
             # they may coincide with the positions the semi-supervised model gives to unlabeled samples
@@ -118,6 +124,8 @@ def run(case, predict=True, check_diag=True, need_symmetric=True):
         Xtr = models.index_features(nt)
         Xun = models.index_features(nu, nt)
         Xq = models.index_features(nq, ntr)
+        if case.get("zero_feats"):
+            Xtr, Xun, Xq = Xtr * 0.0, Xun * 0.0, Xq * 0.0
         r.W = [row[:ntr] for row in Wfull[:ntr]]
         r.DQ = [[Wfull[t][ntr + q] for t in range(ntr)] for q in range(nq)]
         I_tr = np.array(rows[:nt], dtype=int)
@@ -125,7 +133,11 @@ def run(case, predict=True, check_diag=True, need_symmetric=True):
     else:
         name = case["metric"]
         X = [list(map(float, p)) for p in case["X"]]
-        model = libcall(cls, distance=name)
+        if case.get("ctor") == "fn_setter":
+            model = libcall(cls)
+            model.distance_fn = models.dist_fn(name)
+        else:
+            model = libcall(cls, distance=name)
         Xtr = np.array(X[:nt], dtype=np.int64 if case.get("train_int") else float).reshape(nt, -1)
         Xun = np.array(X[nt:ntr], dtype=float).reshape(nu, len(X[0]))
         Xq = np.array(X[ntr:], dtype=float).reshape(nq, len(X[0]))
@@ -169,6 +181,13 @@ def run(case, predict=True, check_diag=True, need_symmetric=True):
             libcall(model.predict, Xtr[:2].copy(), None if I_tr is None else I_tr[:2].copy())
         elif op == "get_distances" and trained:
             libcall(model.get_distances)
+        elif op == "stale_matrix" and case["mode"] == "feat":
+            # a distance matrix from an earlier experiment stays attached while the documented switch pre_computed_distance is off
+            ns = ntr + nq + 8
+            S = np.array([[0.0 if a == b else float(((a * 7 + b * 13 + a * b) % 11) + 1) for b in range(ns)] for a in range(ns)])
+            model.pre_computed_distance = True
+            model.pre_distances = S
+            model.pre_computed_distance = False
         elif op == "via_load":
             # save the (possibly fitted) model and continue with a DEFAULT-constructed object that loaded the file
             with tempfile.TemporaryDirectory(prefix="supcase-") as tmp:
